@@ -57,7 +57,7 @@ theorem meets_definition (p : List Cmd) (input : List Char) (n : Nat) :
      (runN p n (initCfg input)).2 = HyD.toStatus (HyD.run p n (HyD.initial input) 0).2.2 ∧
      ((∀ h, (HyD.run p n (HyD.initial input) 0).2.2 ≠ .halted h) →
         RS RN (runN p n (initCfg input)).1.m.1 (HyD.toSt (HyD.run p n (HyD.initial input) 0).1))) := by
-  have hd := HyD.run_eq p n (HyD.initial input) 0
+  have hd := HyD.run_eq p n (HyD.initial input) 0 (HyD.okIn_initial input)
   have e : (⟨HyD.toM (HyD.initial input), 0⟩ : Cfg V) = specInit input := rfl
   rw [e] at hd
   rcases run_refines_spec p input n with hu | ⟨ho, hrs⟩
